@@ -16,14 +16,14 @@
 package beaconblock
 
 import (
-	"github.com/protolambda/zrnt/eth2/beacon/deneb"
-	"github.com/protolambda/zrnt/eth2/beacon/capella"
-	"github.com/protolambda/zrnt/eth2/beacon/bellatrix"
 	"bufio"
 	"context"
 	"encoding/hex"
 	"errors"
 	"fmt"
+	"github.com/protolambda/zrnt/eth2/beacon/bellatrix"
+	"github.com/protolambda/zrnt/eth2/beacon/capella"
+	"github.com/protolambda/zrnt/eth2/beacon/deneb"
 	"os"
 	"runtime/pprof"
 	"sort"
@@ -54,10 +54,10 @@ type chainPlan struct {
 	balances   string
 	slots      int
 	seed       int64
-	late       bool // attestations are often held back, split into overlapping aggregates, and vote for odd heads/targets
+	late       bool   // attestations are often held back, split into overlapping aggregates, and vote for odd heads/targets
 	policy     string // a named policy of the chain library ("late", "full", "edge", "showcase", …); "": the default policy
-	limits     bool // blocks that carry exactly MAX_x operations of one kind in turn, and attestation backlogs (very late inclusion)
-	straddle   bool // attestation backlog across EVERY fork boundary: nothing included in the epoch before a fork and in the first half of the fork epoch
+	limits     bool   // blocks that carry exactly MAX_x operations of one kind in turn, and attestation backlogs (very late inclusion)
+	straddle   bool   // attestation backlog across EVERY fork boundary: nothing included in the epoch before a fork and in the first half of the fork epoch
 }
 
 // apart returns cfg with every per-fork constant family taking pairwise different values across the forks and every
